@@ -47,7 +47,7 @@ func fnClientUnblock(ctx *cmdContext, args map[string]any) (output respValue, er
 	defer clientsMu.Unlock()
 
 	client, exists := clients[id]
-	if exists {
+	if exists && client.dss == ctx.cs.dss {
 		reason := ""
 		if isError {
 			reason = "UNBLOCKED client unblocked via CLIENT UNBLOCK"
@@ -163,7 +163,7 @@ func fnClientKill(ctx *cmdContext, args map[string]any) (output respValue, err e
 		return
 	}
 
-	processAllClients(func(id int64, cs *clientState) {
+	processClientsOf(ctx.cs.dss, func(id int64, cs *clientState) {
 		shouldClose := cs.client.MatchFilter(filter)
 
 		if shouldClose {
@@ -231,7 +231,7 @@ func fnClientList(ctx *cmdContext, args map[string]any) (output respValue, err e
 
 	var list strings.Builder
 
-	processAllClients(func(id int64, cs *clientState) {
+	processClientsOf(ctx.cs.dss, func(id int64, cs *clientState) {
 		included := true
 		if len(ids) > 0 {
 			_, included = ids[cs.id]
